@@ -8,8 +8,9 @@ Text is `List Char` (`Str`).  A `URL` value is the state of a Python `URL` objec
 the decoded components.  What is abstracted (validated by the correspondence, not
 modelled): the regex parse of a text into components and percent-decoding
 (`URL.ofComponents` takes the components), percent-quoting in `to_text` (components are
-drawn from characters that are never quoted), the IDNA codec, and the query string
-(an opaque text; `[]` = "no parameters" = a falsy `query_params`).
+drawn from characters that are never quoted) and the IDNA codec.  The query is the item sequence of the
+`QueryParamDict` (`parse_qsl` without its unquoting, `QueryParamDict.to_text` without its quoting,
+`OrderedMultiDict.update` as `from_parts` calls it); `[]` = "no parameters" = a falsy `query_params`.
 `toText` is compared with the real `to_text()` for URLs that have a host; for URLs without a host the
 correspondence compares the public components instead (how an empty authority is written is being
 repaired under property C06; no C07 theorem depends on that branch of `toText`).
@@ -18,6 +19,10 @@ Core Lean only.
 namespace C07
 
 abbrev Str := List Char
+
+/-- the items of a `QueryParamDict` in insertion order (`iteritems(multi=True)`): key, value (`none` = `None`,
+    a key without `=`) -/
+abbrev QPairs := List (Str × Option Str)
 
 /-- state of a `URL` object -/
 structure URL where
@@ -29,7 +34,7 @@ structure URL where
   v6        : Bool        -- `family == socket.AF_INET6`
   port      : Nat         -- 0 = `None`
   parts     : List Str    -- `path_parts`
-  query     : Str         -- `query_params.to_text()`; `[]` = no parameters
+  query     : QPairs      -- `query_params` (all items, in order); `[]` = no parameters
   fragment  : Str
 deriving Repr, DecidableEq
 
@@ -49,6 +54,46 @@ def joinSlash : List Str → Str
   | [] => []
   | [s] => s
   | s :: t => s ++ '/' :: joinSlash t
+
+/-! ### the query: `parse_qsl`, `QueryParamDict.to_text`, `OrderedMultiDict.update` -/
+
+/-- `text.split(sep)` -/
+def splitC (sep : Char) : Str → List Str
+  | [] => [[]]
+  | c :: cs => if c = sep then [] :: splitC sep cs else consHead c (splitC sep cs)
+
+/-- `sep.join(parts)` -/
+def joinC (sep : Char) : List Str → Str
+  | [] => []
+  | [s] => s
+  | s :: t => s ++ sep :: joinC sep t
+
+/-- `key, sep, value = pair.partition('=')`, then `if not value: value = '' if sep else None` -/
+def partitionEq : Str → Str × Option Str
+  | [] => ([], none)
+  | c :: cs => if c = '=' then ([], some cs) else (c :: (partitionEq cs).1, (partitionEq cs).2)
+
+/-- `if not pair: continue` -/
+def nonEmpty (s : Str) : Bool := !s.isEmpty
+
+/-- `parse_qsl(qs)` (`keep_blank_values=True`): split at `&`, then at `;`, skip empty pairs, partition at the
+    first `=` (the unquoting of key and value is abstracted: identity on the correspondence domain) -/
+def parseQsl (qs : Str) : QPairs :=
+  (((splitC '&' qs).flatMap (splitC ';')).filter nonEmpty).map partitionEq
+
+/-- one item as `QueryParamDict.to_text` writes it: `key` for a `None` value, else `key=value` -/
+def renderPair : Str × Option Str → Str
+  | (k, none) => k
+  | (k, some v) => k ++ '=' :: v
+
+/-- `QueryParamDict.to_text()` -/
+def queryText (q : QPairs) : Str := joinC '&' (q.map renderPair)
+
+def hasKey (q : QPairs) (k : Str) : Bool := q.any (fun p => p.1 == k)
+
+/-- `self.update(E)` for an `OrderedMultiDict` `E`: every key of `E` is first deleted from `self`, then all
+    items of `E` (`iteritems(multi=True)`) are added in order -/
+def omdUpdate (self E : QPairs) : QPairs := self.filter (fun p => !hasKey E p.1) ++ E
 
 /-! ### `resolve_path_parts` -/
 
@@ -116,7 +161,7 @@ def URL.toText (u : URL) : Str :=
   (if path ≠ [] then
      (if u.scheme ≠ [] ∧ authority ≠ [] ∧ path.head? ≠ some '/' then ['/'] else []) ++ path
    else []) ++
-  (if u.query ≠ [] then '?' :: u.query else []) ++
+  (if queryText u.query ≠ [] then '?' :: queryText u.query else []) ++
   (if u.fragment ≠ [] then '#' :: u.fragment else [])
 
 /-! ### `normalize`, `from_parts`, `navigate` -/
@@ -143,10 +188,12 @@ def URL.navigate (self dest : URL) : URL :=
           let baseParts := self.parts.dropLast
           (if self.host ≠ [] ∧ baseParts.head? ≠ some [] then [] :: baseParts else baseParts) ++ dest.parts
       else self.parts
-    let query : Str :=
+    -- `query_params = dest.query_params`; without a path: `if not query_params: query_params = self.query_params`
+    let query : QPairs :=
       if dpath ≠ [] then dest.query
       else if dest.query = [] then self.query else dest.query
-    -- `from_parts(...)` (a fresh URL: `_netloc_sep` empty, `path_parts or ('',)`), then the family, then `normalize()`
+    -- `from_parts(...)` (a fresh URL: `_netloc_sep` empty, `path_parts or ('',)`, `ret.query_params.update(query_params)`
+    -- on the empty `QueryParamDict` of the fresh URL), then the family, then `normalize()`
     URL.normalize
       { scheme := orStr dest.scheme self.scheme
         netlocSep := false
@@ -156,7 +203,7 @@ def URL.navigate (self dest : URL) : URL :=
         v6 := if dest.host ≠ [] then dest.v6 else self.v6
         port := if dest.port ≠ 0 then dest.port else self.port
         parts := if newParts = [] then [[]] else newParts
-        query := query
+        query := omdUpdate [] query
         fragment := dest.fragment }
 
 /-- a whole navigation history -/
@@ -177,7 +224,7 @@ deriving Repr, DecidableEq
 def URL.ofComponents (scheme : Option Str) (hasAuthority : Bool) (user pass host : Str) (v6 : Bool) (port : Nat)
     (path : Str) (query fragment : Option Str) : URL :=
   { scheme := scheme.getD [], netlocSep := hasAuthority, user := user, pass := pass, host := host, v6 := v6,
-    port := port, parts := splitSlash path, query := query.getD [], fragment := fragment.getD [] }
+    port := port, parts := splitSlash path, query := parseQsl (query.getD []), fragment := fragment.getD [] }
 
 /-- `URL(text)` for a reference without scheme and authority -/
 def URL.ofRelRef (r : Ref) : URL :=
